@@ -130,11 +130,17 @@ func parsePath(s string) Path {
 // parent's three lists; it never looks at Pos().
 func pathOf(c store.Cursor) (Path, bool) {
 	var rev []Step
+	if c == nil {
+		return nil, false // a nil cursor in a result: reported as "?" and compared like any other answer
+	}
 	for depth := 0; ; depth++ {
 		if depth > 100000 {
 			return nil, false
 		}
 		par := c.Parent()
+		if par == nil {
+			return nil, false
+		}
 		if par == c {
 			break
 		}
